@@ -161,7 +161,7 @@ func fipCheck(fip *FloatingIPPool) error {
 			return fmt.Errorf("ip range %s not in subnet %s", fip.IPRanges[i].String(), net.String())
 		}
 		if i != 0 {
-			if nets.IPToInt(fip.IPRanges[i].First) <= nets.IPToInt(fip.IPRanges[i-1].Last)+1 {
+			if uint64(nets.IPToInt(fip.IPRanges[i].First)) <= uint64(nets.IPToInt(fip.IPRanges[i-1].Last))+1 {
 				return fmt.Errorf("ip range %s and %s can be merge to one or has wrong order",
 					fip.IPRanges[i-1].String(), fip.IPRanges[i].String())
 			}
